@@ -122,6 +122,50 @@ PROPS.update({
     "C11": _e2("TestVerifC11", "Harness FDOperators with recording callbacks on a real poller whose Wait loop is an actor; generated peer scripts make the kernel itself produce IN/OUT/RDHUP/HUP/ERR combinations (no synthetic flag sets); per-descriptor callback histories are judged at exact quiescence.",
                "scenario = 1-5 descriptors (+120-140 idle ones in 5% of the cases, crossing the 128-event array growth) x Inputs buffer size x optional output stream through Outputs/OutputAck with a 2 KiB socket buffer x peer script (writes, reads, shutdown, close, close with unread data) x user detach x Trigger x Close; non-trivial = at least two descriptors and one of them got data and hang-up; distinct = scenario + event sequence",
                quick=1500, thorough=40000),
+    "C13": dict(_e2("TestVerifC13", "Two generated searches: (E2) the real server on a unix listener on one poller with accepted connections on a second poller, clients connecting/writing/closing at scheduler-chosen moments - the tracking map is compared with the set of active connections at exact quiescence; (E3) generated mixes of idle, busy and closing clients around Shutdown with generated handler durations and context deadlines on real threads - Shutdown/Serve results, idle-closed/busy-kept, descriptor census.",
+               "E2: 1-3 clients x {connect, connect+write, connect+close, connect+write+close} x OnConnect or not, two pollers, generated schedule; non-trivial = a client's close fell within 25 steps of its connection's OnPrepare. E3: 0-4 idle, 0-3 busy (handler blocked until released), 0-3 closing clients x Shutdown deadline before/after the handlers' release x tcp4/unix; non-trivial = at least one busy and one idle connection at Shutdown, or a close racing the accept; distinct = scenario (+ event sequence for E2)"),
+        engine="E2 simworld + E3 livenet",
+        parts=[
+            {"test": "TestVerifC13", "variant": "instr", "chunk": 2500, "quick": {"checks": 1500, "shards": 16}, "thorough": {"checks": 40000, "shards": 16}, "replay_marker": "decisions"},
+            {"test": "TestVerifC13Live", "variant": "plain", "chunk": 0, "crash_is_violation": True, "quick": {"checks": 6, "shards": 8}, "thorough": {"checks": 150, "shards": 12}, "replay_marker": "deadline_ms"},
+        ]),
+})
+
+def _e3(test, text, rule, quick, thorough, shards_q=8, shards_t=12, **kw):
+    d = {
+        "engine": "E3 livenet",
+        "test": test,
+        "variant": "plain",
+        "technique": "property-based testing with generated workloads on real threads, pollers and sockets against schedule-independent oracles (results, streams, descriptor and poller-slot censuses)",
+        "level_text": text,
+        "level_note": "trusted: /proc/self/fd and the poller free lists as censuses; loopback kernel behaviour (refused, SYN drop with a full accept queue, RST); timing is the OS's choice, so absence of a failure is a sample, and a failure is re-run to state its rate",
+        "design_ref": "DESIGN.md sections 3.3 and 5",
+        "rule": rule,
+        "assumptions": ["interleavings are chosen by the OS scheduler (not controlled); waiting is bounded by a 30 s no-progress rule, never by a fixed sleep"],
+        "crash_is_violation": True,
+        "shrinktime": "30s",
+        "quick": {"checks": quick, "shards": shards_q},
+        "thorough": {"checks": thorough, "shards": shards_t},
+    }
+    d.update(kw)
+    return d
+
+PROPS.update({
+    "C14": _e3("TestVerifC14", "Generated dial targets (accepting TCP4/TCP6/unix, refused, SYN-dropping listener with a full accept queue, accept-and-reset), timeouts from 50 us to 300 ms bracketing the connect latency, 1-32 concurrent dials; results, Timeout(), echo round trip and descriptor/poller-slot censuses are checked.",
+               "scenario = target kind x timeout in {50us..300ms} x concurrency in {1,2,8,32}; non-trivial = at least one dial failed or timed out; distinct = scenario + number of failed/timed-out dials",
+               quick=25, thorough=600),
+    "C15": _e3("TestVerifC15", "Generated lifecycles of connections (dialled, accepted, adopted with NewFDConnection, detached), listeners (CreateListener/ConvertListener), failed dials and private poller pools; every close(2) netpoll issues is audited BEFORE it executes (is the number open? is it a harness-owned victim parked on a number netpoll has already closed?) and the descriptor census must return to its baseline.",
+               "scenario = 1-6 lifecycle steps out of 11 kinds (dial tcp/unix, refused dial, timed-out dial, server tcp/unix with 3 clients and Shutdown, NewFDConnection, Detach, private manager grow/shrink/Close, CreateListener, 4 connections closed twice concurrently); non-trivial = the scenario has an error path, a server or concurrent closes; distinct = step sequence",
+               quick=20, thorough=500, variant="instr",
+               level_note="trusted: the close(2) audit points are inserted by tools/vinstr before every syscall.Close / file.Close of the current sources; F_DUPFD parks victims atomically on freed numbers; /proc/self/fd census"),
+    "C18": _e3("TestVerifC18", "Generated sequences of SetNumLoops/SetLoadBalance applied between phases on private managers, each phase with 1-32 goroutines calling Pick concurrently (the first phase races the lazy initialisation); pool size, membership, liveness of every poller (an operator registered on it must receive an event), descriptor census after shrink and Close, round-robin spread.",
+               "scenario = initial size 1-5 x 1-4 phases of (loops 1-6, RoundRobin/Random, 1/2/8/32 goroutines x 1-40 Picks); non-trivial = at least one phase with concurrent Picks; distinct = scenario",
+               quick=12, thorough=300),
+    "C19": _e3("TestVerifC19", "The E3 workloads (bulk streams both ways, Shutdown during traffic, concurrent dials incl. failing ones, pool reconfiguration, descriptor lifecycles) plus a close race (one reader, one writer, 1-4 closers on both ends) run under the Go race detector inside the documented concurrency contract; every race report is a violation.",
+               "workload drawn from {bulk, shutdown, dial, pool, closerace, fdsteps} with generated parameters; every case is non-trivial (several goroutines of different roles - poller, handler task, user reader/writer, closer - touch the same connection or pool); distinct = workload kind + parameters",
+               quick=10, thorough=250, variant="race", crash_is_violation=True, timeout_s=3000,
+               technique="generated concurrent workloads under the Go race detector (oracle: zero race reports outside the harness)",
+               env={"GORACE": "halt_on_error=0"}),
 })
 
 ENGINES = [
@@ -130,8 +174,5 @@ ENGINES = [
     {"name": "E2 simworld", "path": "harness/netpoll/e2_*_test.go + harness/verifsched + tools/vinstr", "serves_properties": ["C04", "C05", "C06", "C07", "C08", "C09", "C10", "C13", "C17", "C18"], "kind_free_text": "generated schedules: schedule points injected at build time, cooperative scheduler around the real poller loop on socketpairs"},
 ]
 
-# properties not claimed yet (kept current while the framework is being built)
-NOT_APPLICABLE = [
-    {"property_id": p, "reason": "check under construction in this session; not claimed until it has been run clean on the unchanged tree"}
-    for p in [ "C13", "C14", "C15", "C18", "C19"]
-]
+# every listed property is claimed
+NOT_APPLICABLE = []
